@@ -13,4 +13,5 @@ Extraction "model.ml"
   transcode value_roundtrip calls_of
   translate_history translate_history_w
   parse_args resolve_from extension_format run_cli
+  detect_format start
   next_value_size transcode_slice transcode_reader mm_output mm_ok msgpack_matches DEPTH_LIMIT.
